@@ -92,6 +92,10 @@ def observe(case):
     rows = [(i,) for i in range(n)]
     if case["lazy"]:
         df = DataFrame(rows=(r for r in rows), schema=["a"])
+    elif case.get("seq") == "tuple":
+        # an in-memory frame whose row store is a sequence but not a list: materialised on first
+        # observation, the cursor must not notice (histories without append)
+        df = DataFrame(rows=tuple(rows), schema=["a"])
     else:
         df = DataFrame(rows=list(rows), schema=["a"])
     outs = []
@@ -225,11 +229,11 @@ def nontrivial_key(case, outs):
     delivered = any((o[0] == "row" and o[1] is not None) or (o[0] == "rows" and o[1]) for o in outs)
     if not delivered:
         return None
-    return repr((case["lazy"], case["n"], case["ops"]))
+    return repr((case["lazy"], case.get("seq"), case["n"], case["ops"]))
 
 
 def classify(case, outs):
-    yield "lazy" if case["lazy"] else "eager"
+    yield "lazy" if case["lazy"] else ("eager-tuple" if case.get("seq") == "tuple" else "eager")
     yield "rows=%d" % min(case["n"], 4) + ("+" if case["n"] > 4 else "")
     yield "depth=%d" % min(len(case["ops"]), 8) + ("+" if len(case["ops"]) > 8 else "")
     for op in case["ops"]:
@@ -257,7 +261,14 @@ def exhaustive(tier):
                 for hist in itertools.product(alpha, repeat=d):
                     yield {"lazy": False, "n": n, "ops": [list(o) for o in hist]}
 
-    return it(), f"all eager histories of depth <= {depth} over the 11-letter alphabet on frames of 0..3 rows"
+        # the same histories without append on tuple-backed frames (depth <= 2)
+        for n in range(0, 4):
+            for d in range(0, 3):
+                alpha = [o for o in _alphabet(n, cyc) if o[0] != "append"]
+                for hist in itertools.product(alpha, repeat=d):
+                    yield {"lazy": False, "seq": "tuple", "n": n, "ops": [list(o) for o in hist]}
+
+    return it(), f"all eager histories of depth <= {depth} over the 11-letter alphabet on frames of 0..3 rows (list-backed; tuple-backed without append to depth 2)"
 
 
 def _random_case(rng, lazy):
@@ -280,10 +291,20 @@ def _random_case(rng, lazy):
     return {"lazy": lazy, "n": n, "ops": ops}
 
 
+def _tuple_case(rng):
+    c = _random_case(rng, lazy=False)
+    c["ops"] = [o for o in c["ops"] if o[0] != "append"]
+    c["seq"] = "tuple"
+    return c
+
+
 def generate(rng, tier):
     count = 600 if tier == "quick" else 12000
     for i in range(count):
-        yield _random_case(rng, lazy=(i % 3 == 0))
+        if i % 5 == 4:
+            yield _tuple_case(rng)
+        else:
+            yield _random_case(rng, lazy=(i % 3 == 0))
 
 
 def search(rng):
